@@ -273,6 +273,12 @@ def c_op(case, o, prev, cur):
     return "OReopen"
 
 
+def err_class(e):
+    if not e:
+        return 0
+    return 1 if "cannot delete index channel" in e else 2
+
+
 def c_obs(out):
     chans = []
     for c in out["chans"]:
@@ -281,7 +287,7 @@ def c_obs(out):
         reads = clist([clist([cpair(cZ(s[0]), cZ(s[1]), clist([cZ(v) for v in s[2:]])) for s in r])
                        for r in c["reads"]])
         chans.append(cpair(cZ(c["key"]), ptrs, files, reads))
-    return cpair(cbool(bool(out["err"])), cZ(out["size"]), clist(chans))
+    return cpair(cZ(err_class(out["err"])), cZ(out["size"]), clist(chans))
 
 
 def to_coq(case, r):
